@@ -62,7 +62,8 @@ type crossFullOpts struct {
 	PeerList     []string
 	Net          *crossMemNet
 	Cfg          *config.MockConfig
-	Origin       string // value prefix of the X-Verif-Origin header on outgoing batches
+	CfgAny       config.Config // a real (file) configuration instead of the mock; SetStress is then unavailable
+	Origin       string        // value prefix of the X-Verif-Origin header on outgoing batches
 	BatchTimeout time.Duration
 	MaxBatch     int
 	RealClocks   bool // transmissions on the real clock (batches go out by themselves)
@@ -95,6 +96,10 @@ func crossStartFullNode(o crossFullOpts) (*crossFullNode, error) {
 	if mb == 0 {
 		mb = 500
 	}
+	var cfgObj any = n.Cfg
+	if o.CfgAny != nil {
+		cfgObj = o.CfgAny
+	}
 	n.Metrics = &metrics.MockMetrics{}
 	n.Metrics.Start()
 	t0 := time.Unix(1_700_000_000, 0)
@@ -114,7 +119,7 @@ func crossStartFullNode(o crossFullOpts) (*crossFullNode, error) {
 	n.Incoming, n.PeerR = &route.Router{}, &route.Router{}
 	var clk clockwork.Clock = n.CollClock
 	objs := []*inject.Object{
-		{Value: n.Cfg},
+		{Value: cfgObj},
 		{Value: peer.NewMockPeers(o.PeerList, o.Addr)},
 		{Value: &logger.NullLogger{}},
 		{Value: o.Net.Transport(), Name: "upstreamTransport"},
